@@ -25,27 +25,30 @@ theorem ingest_filterOne_eq (nodes : List Discret.Ingest.NodeRow) (a : Nat × In
     · simp [h1]
     · by_cases h2 : a.2.1 = l.mdate <;> by_cases h3 : a.2.2 ≤ l.sg <;> simp [h1, h2, h3]
 
-/-- `Sync.wanted`, once the tombstone gate is passed, drops exactly when the regenerated decision does -/
-theorem sync_wanted_eq (d : Discret.DailyLog.Defects) (dst : Discret.Sync.Replica) (n l : Discret.Sync.Node)
-    (hl : dst.findId n.id = some l)
-    (ht : (!d.ingestIgnoresTombstones && dst.ntombs.any (fun t => t.id = n.id)) = false) :
-    Discret.Sync.wanted d dst n =
-      if dropIncoming (n.mdate : Int) n.sig (l.mdate : Int) l.sig then none else some (some l) := by
-  unfold Discret.Sync.wanted dropIncoming
-  rw [ht, hl]
-  by_cases h1 : n.mdate < l.mdate
-  · have : (n.mdate : Int) < (l.mdate : Int) := by omega
-    simp [h1, this]
-  · have h1' : ¬ (n.mdate : Int) < (l.mdate : Int) := by omega
-    by_cases h2 : n.mdate = l.mdate <;> by_cases h3 : n.sig ≤ l.sig
-    all_goals (have : ((n.mdate : Int) = (l.mdate : Int)) ↔ n.mdate = l.mdate := by omega)
-    all_goals simp [h1, h1', h2, h3, this]
+/-- the decision `Sync.wanted` takes once its deletion-record gate is passed -/
+def syncDecision (dst : Discret.Sync.Replica) (n : Discret.Sync.Node) : Option (Option Discret.Sync.Node) :=
+  match dst.findId n.id with
+  | none => some none
+  | some l => if dropIncoming (n.mdate : Int) n.sig (l.mdate : Int) l.sig then none else some (some l)
 
-theorem sync_wanted_absent (d : Discret.DailyLog.Defects) (dst : Discret.Sync.Replica) (n : Discret.Sync.Node)
-    (hl : dst.findId n.id = none)
-    (ht : (!d.ingestIgnoresTombstones && dst.ntombs.any (fun t => t.id = n.id)) = false) :
-    Discret.Sync.wanted d dst n = some none := by
+/-- `Sync.wanted` either refuses the announced row at its deletion-record gate (whatever that gate is) or
+    takes exactly the regenerated last-writer-wins decision -/
+theorem sync_wanted_eq (d : Discret.DailyLog.Defects) (dst : Discret.Sync.Replica) (n : Discret.Sync.Node) :
+    Discret.Sync.wanted d dst n = none ∨ Discret.Sync.wanted d dst n = syncDecision dst n := by
   unfold Discret.Sync.wanted
-  rw [ht, hl]; rfl
+  split
+  · left; rfl
+  · right
+    unfold syncDecision dropIncoming
+    cases hl : dst.findId n.id with
+    | none => rfl
+    | some l =>
+      by_cases h1 : n.mdate < l.mdate
+      · have : (n.mdate : Int) < (l.mdate : Int) := by omega
+        simp [h1, this]
+      · have h1' : ¬ (n.mdate : Int) < (l.mdate : Int) := by omega
+        by_cases h2 : n.mdate = l.mdate <;> by_cases h3 : n.sig ≤ l.sig
+        all_goals (have : ((n.mdate : Int) = (l.mdate : Int)) ↔ n.mdate = l.mdate := by omega)
+        all_goals simp [h1, h1', h2, h3, this]
 
 end Discret.Gen.Lww
